@@ -218,6 +218,7 @@ class XPowGate(eigen_gate.EigenGate):
         result = super().controlled(num_controls, control_values, control_qid_shape)
         if (
             self._global_shift == 0
+            and self._dimension == 2
             and isinstance(result, controlled_gate.ControlledGate)
             and isinstance(result.control_values, cv.ProductOfSums)
             and result.control_values.is_trivial
@@ -729,6 +730,7 @@ class ZPowGate(eigen_gate.EigenGate):
         result = super().controlled(num_controls, control_values, control_qid_shape)
         if (
             self._global_shift == 0
+            and self._dimension == 2
             and isinstance(result, controlled_gate.ControlledGate)
             and isinstance(result.control_values, cv.ProductOfSums)
             and result.control_values.is_trivial
@@ -1703,7 +1705,8 @@ def _extract_phase(
     excluded from the return value."""
     if not context.extract_global_phases or gate.global_shift == 0:
         return NotImplemented
-    result = [gate_class(exponent=gate.exponent).on(*qubits)]
+    kwargs = {'dimension': gate.dimension} if isinstance(gate, (XPowGate, ZPowGate)) else {}
+    result = [gate_class(exponent=gate.exponent, **kwargs).on(*qubits)]
     phase_gate = global_phase_op.from_phase_and_exponent(gate.global_shift, gate.exponent)
     if not phase_gate.is_identity():
         result.append(phase_gate())
